@@ -148,8 +148,13 @@ def check(rep, tier):
             if cand.any() and not np.allclose(tn[cand], kcn * dt + dt):
                 rep.violation("trigger-step-time", "vials fired by controlled nucleation report t_nucleation %s, trigger step time is %r" % (tn[cand][:4], kcn * dt + dt), dict(config=cfg, k_CN=kcn))
     # ---- (c) lockstep with scripted dice and cnTemp: nothing is forced at any other step ---------------------
+    # fixed corpus first (independent of the seed): a hold at the trigger temperature in the middle of the process, so that the trigger fires in
+    # every run of the object (ri = 0 is re-run on the same object below)
+    fixedc = dict(arr="square", shape=(3, 3, 1), k={"int": 20, "ext": 20, "s0": 50, "s_sigma_rel": 0}, dt=10.0, T_init=None,
+                  over={"snowfall_parameters": {"vial_arrangement": "square"}}, initIce="indirect", seed=5, seed_v=6,
+                  prog=dict(start=5, end=-40, rate=1.0 / 60, holds=[{"duration": 1200, "temp": -8}], t_tot=5000.0, dt=10.0), cnTemp=-8, thr=0.9)
     for ri in range(6 if tier == "quick" else 60):
-        cfg = fr.gen_config(rng, max_vials=16, max_steps=500, cn=True)
+        cfg = dict(fixedc) if ri == 0 else fr.gen_config(rng, max_vials=16, max_steps=500, cn=True)
         try:
             S, L = c03.lockstep_run(rep, cfg, rng)
         except Exception as e:
